@@ -1259,7 +1259,7 @@ impl Model {
                                 ),
                             });
                         }
-                    } else if self.ops[*op].lenient && res.starts_with("Err:") {
+                    } else if self.ops.get(*op).is_some_and(|o| o.lenient) && res.starts_with("Err:") {
                         // unconstrained
                     } else if self.check_ops {
                         out.push(Mismatch {
